@@ -33,7 +33,7 @@ RULE = ("ipf cases: 1-3 filters (allow/block lists of addresses and CIDRs, prima
         "x clients at the prefix boundaries (bit len-1 / len flipped, first/last address, just below/above, neighbours of single addresses in the same /64 /32 /16 (v4: /24 /16 /8), other family, unparsable); "
         "non-trivial = at least one filter and one client; classes add: v6 client(+1) both answers seen(+2) client in allowed and blocked(+4) "
         "unparsable client(+8) mapped entry(+16) chain of several filters(+32) proper CIDR(+64). "
-        "mux cases: server/rule/path filters x request sequences (client via RemoteAddr / X-Real-IP / X-Forwarded-For) on three real mux "
+        "mux cases: server/rule/path filters (incl. entry-less ones, blockByDefault true/false), option xForwardedFor on/off x request sequences (client via RemoteAddr in public/private/loopback/link-local ranges / X-Real-IP / X-Forwarded-For single, multiple, private-only chains) on three real mux "
         "instances (cache on, cache off, filter-less twin); non-trivial = non-empty sequence; classes add: some request denied(+1) cache hit(+2) "
         "denied on a hit(+4) denied where a route exists(+8) denied where none exists(+16) twin both dispatches and refuses(+32) sequence with reload steps (identical spec / other option / other filters, "
         "applied to all three instances)(+64) request denied after a reload on a key served before it(+128). "
@@ -176,7 +176,7 @@ def distribution(cases):
     d = dict(groups={}, v4_prefix_lengths=set(), v6_prefix_lengths=set(), entries=0, mapped_entries=0, rejected_entries=0,
              bare_v6_entries_by_colons={}, v6_entry_text=dict(upper_case=0, full_form=0, dotted_tail=0),
              clients=0, unparsable_clients=0, v6_clients=0, answers={"0": 0, "1": 0, "2": 0},
-             mux_requests=0, mux_reloads=0, mux_hits=0, mux_status={}, mux_client_source={"remote": 0, "xrealip": 0, "xff": 0})
+             mux_requests=0, mux_cases_xForwardedFor=0, mux_entryless_filters=0, mux_realip_unparsable=0, mux_reloads=0, mux_hits=0, mux_status={}, mux_client_source={"remote": 0, "xrealip": 0, "xff": 0})
     for c in cases:
         g = c["grp"]
         d["groups"][g] = d["groups"].get(g, 0) + 1
@@ -209,7 +209,12 @@ def distribution(cases):
                 for x in row or []:
                     d["answers"][str(x)] = d["answers"].get(str(x), 0) + 1
         else:
+            d["mux_cases_xForwardedFor"] += bool(c["in"].get("xForwardedFor"))
+            fl = [c["in"].get("filter")] + [r.get("filter") for r in c["in"].get("rules") or []] + \
+                 [p.get("filter") for r in c["in"].get("rules") or [] for p in r.get("paths") or []]
+            d["mux_entryless_filters"] += sum(1 for f in fl if f is not None and not f.get("allow") and not f.get("block"))
             for q, rq in zip(orc.get("reqs") or [], c["in"].get("reqs") or []):
+                d["mux_realip_unparsable"] += not q.get("ip_ok")
                 d["mux_requests"] += 1
                 if rq.get("reload"):
                     d["mux_reloads"] += 1
